@@ -29,7 +29,7 @@ P['C14'] = dict(
     dict(name='H14A', src='C14_transport1d.cpp', covers=['precondition holds', 'end'], defines={'VCAP': 12, 'NS': 2, 'NK': 2, 'QMAX': 2, 'FAMILY_A': None}, cfg=dict(fp='exact'),
          thorough=dict(defines={'NS': 3, 'NK': 3})),
     dict(name='H14A3', src='C14_transport1d.cpp', covers=['precondition holds', 'end'], defines={'VCAP': 12, 'NS': 1, 'NK': 3, 'QMAX': 1, 'FAMILY_A': None}, cfg=dict(fp='exact')),
-    dict(name='H14A32', src='C14_transport1d.cpp', covers=['precondition holds', 'end'], defines={'VCAP': 12, 'NS': 3, 'NK': 2, 'QMAX': 1, 'FAMILY_A': None}, cfg=dict(fp='exact')),
+    dict(name='H14A33', src='C14_transport1d.cpp', covers=['precondition holds', 'end'], defines={'VCAP': 12, 'NS': 3, 'NK': 3, 'QMAX': 2, 'SMAX': 0, 'ONLYFULL': None, 'SORTEDSINKS': None, 'FAMILY_A': None}, cfg=dict(fp='exact')),
     dict(name='H14B', src='C14_transport1d.cpp', covers=['precondition holds', 'end'], defines={'VCAP': 12, 'NS': 2, 'NK': 2, 'PRANGE': 3, 'QLIM': 1048576, 'FAMILY_B': None}, cfg=dict(fp='exact'),
          thorough=dict(defines={'NS': 3, 'NK': 2})),
   ])
@@ -114,7 +114,7 @@ C01_BASE = {'VCAP': 8, 'NC': 2, 'NFIXED': 0, 'NROWS': 2, 'TALLCHOICES': 2, 'POLC
 P['C01'] = dict(
   design_ref='DESIGN.md section 3 C01',
   level_text='Circuit::legalize executed end to end by the solver-backed executor on tiny circuits with symbolic geometry: whenever it returns, every movable cell has its bottom edge on a row, each row-high strip inside one free segment of computeRows(), no two movable cells overlap, orientations are as the polarity prescribes; when it throws the placement is unchanged; it does not throw when success is trivial. Widths, initial positions (far outside the rows included), row width, fixed obstruction geometry are symbolic; cell kinds, polarities, row orientation patterns and parameter sets are enumerated.',
-  text=dict(bounds=dict(quick='2 movable cells (cell 0 row-high or 2 rows high), widths symbolic 1..12, x symbolic in [-64,128], y enumerated in {-7,6,19}, 2 rows (N,FS) of symbolic width 8..64, cell 0 all 5 polarities, cell 1 ANY, default ordering parameters; H01T: both cells two rows high (widths 9 and 4), 1 fixed obstruction of symbolic width and x covering all rows (two segments per row), polarity ANY',
+  text=dict(bounds=dict(quick='2 movable cells (cell 0 row-high or 2 rows high), widths symbolic 1..12, x symbolic in [-64,128], y enumerated in {-7,6,19}, 2 rows (N,FS) of symbolic width 8..64, cell 0 all 5 polarities, cell 1 ANY, default ordering parameters; H01T: both cells two rows high (widths 9 and 4), 1 fixed obstruction of symbolic width and x covering all rows (two segments per row), polarity ANY; H01G: one two-row-high cell, 3 rows with an optional one-row gap between rows 1 and 2',
                         thorough='H01E: 4 row patterns, 8 orientations for ANY cells, 5x5 polarities, 3 ordering parameter sets; H01EY: y symbolic too (3 polarities); H01EF: + 1 fixed cell (obstruction flag, symbolic size/position), 3 rows with optional gap; H01E3: 3 movable cells (widths 4/9)'),
             outside='more than 3 movable cells / 3 rows / 1 fixed cell; several segments per y other than those produced by one obstruction; efforts other than 1 (legalization parameters do not depend on the effort)'),
   assumptions=STD_ASSUME + [BOOST_ASSUME, 'legalization processing order over-approximated: every outcome of each float key comparison is explored (FP havoc), so the claims hold for any processing order'],
@@ -122,6 +122,7 @@ P['C01'] = dict(
     dict(name='H01E', src='C01_legalize.cpp', covers=['legalize ended', 'legalize returned', 'legalize threw', 'end'], defines=dict(C01_BASE, YCHOICE=None, POL1CHOICES=1, ROWPATTERNS=1), cfg=dict(fp='havoc'), split=2, ir_srcs=ALL_IR, native_srcs=ALL_IR, native_flags=['-llemon'],
          thorough=dict(defines={'ROWPATTERNS': 4, 'ORICHOICES': 8, 'POL1CHOICES': 5, 'PARAMSETS': 3})),
     dict(name='H01T', src='C01_legalize.cpp', covers=['legalize ended', 'legalize returned', 'end'], defines=dict(C01_BASE, YCHOICE=None, WCHOICE=None, NFIXED=1, FIXEDFULL=None, TALLALL=2, POLCHOICES=1, POL1CHOICES=1, ROWPATTERNS=1, VCAP=10), cfg=dict(fp='havoc', time_budget=60), split=3, ir_srcs=ALL_IR, native_srcs=ALL_IR, native_flags=['-llemon']),
+    dict(name='H01G', src='C01_legalize.cpp', covers=['legalize ended', 'legalize returned', 'legalize threw', 'end'], defines=dict(C01_BASE, NC=1, YCHOICE=None, WCHOICE=None, TALLALL=2, NROWS=3, GAPCHOICES=2, GAPFROM=2, POLCHOICES=2, POL1CHOICES=1, ROWPATTERNS=1), cfg=dict(fp='havoc'), ir_srcs=ALL_IR, native_srcs=ALL_IR, native_flags=['-llemon']),
     dict(name='H01EY', src='C01_legalize.cpp', tiers=('thorough',), covers=['legalize ended', 'end'], defines=dict(C01_BASE, POLCHOICES=3, ROWPATTERNS=1), cfg=dict(fp='havoc', time_budget=900), split=4, ir_srcs=ALL_IR, native_srcs=ALL_IR, native_flags=['-llemon']),
     dict(name='H01EF', src='C01_legalize.cpp', tiers=('thorough',), covers=['legalize ended', 'end'], defines=dict(C01_BASE, YCHOICE=None, NFIXED=1, NROWS=3, GAPCHOICES=2, POLCHOICES=2, TALLCHOICES=2, VCAP=10), cfg=dict(fp='havoc', time_budget=900), split=3, ir_srcs=ALL_IR, native_srcs=ALL_IR, native_flags=['-llemon']),
     dict(name='H01E3', src='C01_legalize.cpp', tiers=('thorough',), covers=['legalize ended', 'end'], defines=dict(C01_BASE, NC=3, VCAP=10, YCHOICE=None, WCHOICE=None, POLCHOICES=2, POL1CHOICES=2), cfg=dict(fp='havoc', time_budget=900), split=2, ir_srcs=ALL_IR, native_srcs=ALL_IR, native_flags=['-llemon']),
@@ -129,14 +130,15 @@ P['C01'] = dict(
 
 P['C02'] = dict(
   design_ref='DESIGN.md section 3 C02',
-  level_text='(A) One-step induction on the real DetailedPlacement: from an ARBITRARY legal placement (symbolic segments, widths, positions; built by the real constructor) any single swap or insert accepted by canSwap/canInsert leaves a state for which check() passes and the directly stated invariant holds (inside segment, no overlap, y = row y, ignored cells untouched, widths unchanged, orientation prescribed and never INVALID) - hence every sequence of moves. (D) the shift pass runShiftsOnCells under the network-simplex contract (any optimal dual solution of the graph the repository built, characterised by dual feasibility + a complementary primal flow): ordering, spacing and row boundaries kept, cells outside the window untouched, for full and partial windows. (E, thorough) Circuit::placeDetailed end to end with a callback evaluating the legality predicate at every Detailed step and on return.',
-  text=dict(bounds=dict(quick='A: 2 segments (split row or stacked, N/FS), 3 cells incl. an optionally ignored one, widths 1..6, positions symbolic, cell 0 any polarity; E: see harness list', thorough='A: 4 cells'),
+  level_text='(A) One-step induction on the real DetailedPlacement: from an ARBITRARY legal placement (symbolic segments, widths, positions; built by the real constructor) any single swap or insert accepted by canSwap/canInsert leaves a state for which check() passes and the directly stated invariant holds (inside segment, no overlap, y = row y, ignored cells untouched, widths unchanged, orientation prescribed and never INVALID) - hence every sequence of moves. (D) the shift pass runShiftsOnCells under the network-simplex contract (any optimal dual solution of the graph the repository built, characterised by dual feasibility + a complementary primal flow): ordering, spacing and row boundaries kept, cells outside the window untouched, for full and partial windows. (R) the row reordering pass runReorderingOnCells (real RowReordering branch and bound) on a four-cell window over two stacked rows: it does not fail, the checks of the repository pass, the exported placement is legal including polarity/orientation, and cells outside the window do not move. (E, thorough) Circuit::placeDetailed end to end with a callback evaluating the legality predicate at every Detailed step and on return.',
+  text=dict(bounds=dict(quick='A: 2 segments (split row or stacked, N/FS), 3 cells incl. an optionally ignored one, widths 1..6, positions symbolic, cell 0 any polarity; R: rows N/FS/N of symbolic width 24..48, window on rows 0-1 or 1-2, 2+2 window cells (widths 3,5,2,4) at symbolic offsets 0..6, with or without a boundary cell ending each row, cell 0 ANY or the restrictive polarity of its row, fixed terminal at a symbolic position (also over the rows); E: see harness list', thorough='A: 4 cells'),
             outside='more cells/segments; network simplex internals (modelled by contract); more than one pass end to end'),
   assumptions=STD_ASSUME + [BOOST_ASSUME, LEMON_ASSUME],
   harnesses=[
     dict(name='H02A', src='C02_step.cpp', covers=['constructed', 'swapped', 'inserted', 'end'], defines={'VCAP': 8, 'NCELLS': 3}, cfg=dict(fp='real'), ir_srcs=ALL_IR, native_srcs=ALL_IR, native_flags=['-llemon'],
          thorough=dict(defines={'NCELLS': 4})),
     dict(name='H02D', src='C05_shift.cpp', covers=['placer built', 'end'], defines={'VCAP': 16, 'LEMON_POTLIM': 4096, 'LEMON_FLOWMAX': 3}, cfg=dict(fp='havoc', time_budget=100), ir_srcs=ALL_IR, native_srcs=ALL_IR, native_flags=['-llemon']),
+    dict(name='H02R', src='C02_reorder.cpp', covers=['placer built', 'end'], defines={'VCAP': 16}, cfg=dict(fp='havoc', time_budget=300, merge=False), split=3, ir_srcs=ALL_IR, native_srcs=ALL_IR, native_flags=['-llemon']),
     dict(name='H02E', src='C02_e2e.cpp', tiers=('thorough',), covers=['placeDetailed ended', 'end'],
          defines={'VCAP': 10, 'NC': 3, 'YCELLS': 2, 'TALLCHOICES': 2, 'POLCHOICES': 2, 'ORICHOICES': 1, 'NNETS': 2, 'SHIFTCELLS': 0, 'REORDERCELLS': 0}, cfg=dict(fp='havoc'), split=3,
          ir_srcs=ALL_IR, native_srcs=ALL_IR, native_flags=['-llemon'],
@@ -145,13 +147,14 @@ P['C02'] = dict(
 
 P['C05'] = dict(
   design_ref='DESIGN.md section 3 C05',
-  level_text='One-pass induction on the real DetailedPlacer: from an ARBITRARY legal placement of a tiny circuit (symbolic x positions and row width; rows N/N or N/FS; one cell optionally with SAME polarity so that its orientation and pin offsets change with the row) each pass primitive (swaps in a row, amplified swaps between rows, inserts in a row, inserts between rows) leaves a placement whose incremental value did not increase, whose REAL half-perimeter wirelength (public hpwl() with orientation-dependent pin offsets, after export) is not above the value before the pass, and which is legal. The shift pass (H05S) is executed under the network-simplex contract (optimal dual solution = dual feasible + complementary primal flow): it never increases the wirelength and the incremental value equals the real wirelength afterwards. Successive callbacks and the final result of placeDetailed are compositions of such passes.',
+  level_text='One-pass induction on the real DetailedPlacer: from an ARBITRARY legal placement of a tiny circuit (symbolic x positions and row width; rows N/N or N/FS; one cell optionally with SAME polarity so that its orientation and pin offsets change with the row) each pass primitive (swaps in a row, amplified swaps between rows, inserts in a row, inserts between rows) leaves a placement whose incremental value did not increase, whose REAL half-perimeter wirelength (public hpwl() with orientation-dependent pin offsets, after export) is not above the value before the pass, and which is legal. The shift pass (H05S) is executed under the network-simplex contract (optimal dual solution = dual feasible + complementary primal flow): it never increases the wirelength and the incremental value equals the real wirelength afterwards. The row reordering pass (H05R, real RowReordering on a four-cell window over two rows) never increases the wirelength either. Successive callbacks and the final result of placeDetailed are compositions of such passes.',
   text=dict(bounds=dict(quick='3 row-high cells (widths 3,6,3) on 2 rows; x of cell 0 symbolic in [0,40] and its row enumerated, x of the others enumerated in {0,9}; row width symbolic 12..40; 1 net; polarity of cell 0 in {ANY,SAME}; 4 pass primitives', thorough='2 nets (2 and 3 pins), other cells x in {0,9,18,27}, 2 pin-offset sets'),
             outside='reordering pass; more cells; end-to-end composition is argued by induction, not executed'),
   assumptions=STD_ASSUME + [BOOST_ASSUME, LEMON_ASSUME],
   harnesses=[
     dict(name='H05P', src='C05_pass.cpp', covers=['placer built', 'end'], defines={'VCAP': 10, 'NC': 3, 'POLCHOICES': 2, 'NNETS': 1}, cfg=dict(fp='havoc', time_budget=60), ir_srcs=ALL_IR, native_srcs=ALL_IR, native_flags=['-llemon'],
          thorough=dict(defines={'NNETS': 2, 'XCHOICES': 4, 'OFFCHOICES': 2}, cfg=dict(time_budget=600))),
+    dict(name='H05R', src='C02_reorder.cpp', covers=['placer built', 'end'], defines={'VCAP': 16}, cfg=dict(fp='havoc', time_budget=300, merge=False), split=3, ir_srcs=ALL_IR, native_srcs=ALL_IR, native_flags=['-llemon']),
     dict(name='H05S', src='C05_shift.cpp', covers=['placer built', 'end'], defines={'VCAP': 16, 'LEMON_POTLIM': 4096, 'LEMON_FLOWMAX': 3}, cfg=dict(fp='havoc', time_budget=100), ir_srcs=ALL_IR, native_srcs=ALL_IR, native_flags=['-llemon']),
   ])
 
